@@ -92,7 +92,7 @@ def run_config(ctx, case, npts=None):
         btag = "branch:manly-lam0"
     if name == "Softmax":
         return run_softmax(ctx, t, case, rng)
-    x = ref.sample(rng, npts or case.get("npts", 160))
+    x = ref.sample(rng, npts or case.get("npts", 160), whole_domain=True)
     if x is None or len(x) == 0:
         return
     x = np.ascontiguousarray(x, dtype=np.float64)
